@@ -293,10 +293,17 @@ class _Walker:
     # ------------------------------------------------------------------ statements
     def block(self, stmts) -> bool:
         """returns True if control can fall through"""
-        for st in stmts:
-            if not self.stmt(st):
-                return False
-        return True
+        depth = len(self.guards)
+        try:
+            for st in stmts:
+                if not self.stmt(st):
+                    return False
+                # a guard clause (`if <test>: return`): what follows in this block runs under the negated test
+                if isinstance(st, ast.If) and getattr(st, "_exits", None) is not None:
+                    self.guards.append(st._exits)
+            return True
+        finally:
+            del self.guards[depth:]
 
     def stmt(self, st: ast.stmt) -> bool:
         if isinstance(st, ast.Expr):
@@ -332,7 +339,12 @@ class _Walker:
             self.fresh_attrs, self.env = set(f0), dict(env0)
             b = self.block(st.orelse)
             f2, env2 = set(self.fresh_attrs), dict(self.env)
-            self.guards.pop()
+            g_ = self.guards.pop()        # "not (<test>)"
+            st._exits = None
+            if not a and b:
+                st._exits = g_               # the body always leaves: the rest of the block runs under the negated test
+            elif a and not b:
+                st._exits = g_[len("not ("):-1]
             if a and b:
                 self.fresh_attrs = f1 & f2
                 self.env = self.join_env(env1, env2)
